@@ -15,7 +15,7 @@ ANCHORS = ['pycaption.scc:SCCReader._flush_implicit_buffers',
            'pycaption.scc.specialized_collections:TimingCorrectingCaptionList.extend']
 REQUIRE = {'streams_roll': 50, 'streams_paint': 50, 'mode_switches': 20, 'rows_checked': 500,
            'streams_starting_at_zero': 20, 'depth_2': 5, 'depth_3': 5, 'depth_4': 5, 'chars_conserved': 5000,
-           'rows_with_special_or_extended': 20, 'abandoned_pop_on_loads': 10, 'end_equals_next_start_checked': 500}
+           'rows_with_special_or_extended': 20, 'abandoned_pop_on_loads': 10, 'streams_returning_to_an_earlier_mode': 50, 'end_equals_next_start_checked': 500}
 
 
 def cases(ctx):
@@ -23,7 +23,9 @@ def cases(ctx):
     for _ in range(ctx.budget(9000, 300000)):
         modes = rng.choice([['roll'], ['paint'], ['roll', 'paint'], ['paint', 'roll'], ['roll', 'roll'],
                             ['roll', 'pop'], ['paint', 'pop'], ['roll', 'paint', 'pop'], ['pop', 'roll', 'pop'],
-                            ['pop', 'paint', 'pop'], ['roll', 'pop', 'paint']])
+                            ['pop', 'paint', 'pop'], ['roll', 'pop', 'paint'], ['paint', 'roll', 'paint'],
+                            ['paint', 'pop', 'paint'], ['roll', 'paint', 'roll'], ['roll', 'pop', 'roll'],
+                            ['paint', 'roll', 'paint', 'roll'], ['paint', 'paint']])
         yield {'stream': G.gen_stream(rng, modes=modes, rich=rng.random() < 0.4)}
 
 
@@ -50,6 +52,8 @@ def check(case, ctx):
         ctx.count('streams_paint')
     if len(modes) > 1:
         ctx.count('mode_switches', len(modes) - 1)
+    if any(a == c and a != b for a, b, c in zip(modes, modes[1:], modes[2:])):
+        ctx.count('streams_returning_to_an_earlier_mode')
     if st['start_frame'] == 0:
         ctx.count('streams_starting_at_zero')
     ctx.count('abandoned_pop_on_loads', sum(1 for s in st['segments'] if s['mode'] == 'pop'
